@@ -66,6 +66,7 @@ type spec struct {
 	Frag    *fragSpec    // translate a run of statements of the function as a function of its own
 	Name    string       // Lean name (default: the Go name, Recv_Func for methods)
 	Uses    []useSpec    // functions of other generated modules it calls
+	Opaque  []string     // "GoType=LeanName": types whose values are only passed on; each is a Lean type parameter
 }
 
 // a fragment: the consecutive statements of one block from the one whose text starts with First to
@@ -113,6 +114,11 @@ var specs = []spec{
 		Consts: []constSpec{{File: "shard/shard.go", Name: "POINTCOUNTKEY", As: "POINTCOUNTKEY"}},
 		Uses: []useSpec{{Go: "conversion.BytesToUint64", Lean: "Gen.Conversion.BytesToUint64", Sig: "func([]byte) uint64", Module: "Conversion"},
 			{Go: "conversion.Uint64ToBytes", Lean: "Gen.Conversion.Uint64ToBytes", Sig: "func(uint64) []byte", Module: "Conversion"}}},
+	// second round (notes/T1ext.md, section 7)
+	{File: "shard/index/utils.go", Func: "getOperation", Module: "IndexOp", Ext: true, Opaque: []string{"*msgpack.Decoder=Decoder"},
+		Prims: []string{"fmtAny", "getPropertyFromBytes=func(dec *msgpack.Decoder, data []byte, property string) (any, error)"},
+		Consts: []constSpec{{File: "shard/index/utils.go", Name: "opInsert", As: "opInsert"}, {File: "shard/index/utils.go", Name: "opUpdate", As: "opUpdate"},
+			{File: "shard/index/utils.go", Name: "opDelete", As: "opDelete"}, {File: "shard/index/utils.go", Name: "opSkip", As: "opSkip"}}},
 }
 
 // the paging at the end of Shard.SearchPoints
